@@ -13,10 +13,27 @@ def kstats(k):
             'faults': dict(k.faults), 'probes': dict(k.probes)}
 
 
-def run_rt(prog, knobs, tape, emit, loopback=False, seed=7):
+def enable_line_preemption(w):
+    """LINE-level pre-emption (sys.monitoring) inside the library's time
+    keeping code for every simulated thread of this run."""
+    from sim import kernel as K
+    from sim import shims
+    import sc3.base.main as sm
+    import sc3.base.clock as sclk
+    import sc3.base.stream as sstm
+    k = w.kernel
+    k.enable_monitoring(preempt_codes=K.code_objects(sm, sclk, sstm))
+    shims._CTX['line_preempt_all'] = True
+    for t in k.threads:
+        t.line_preempt = True
+
+
+def run_rt(prog, knobs, tape, emit, loopback=False, seed=7, driver=None):
     w = world.RtWorld(tape, knobs, seed=seed).boot()
     k = w.kernel
     main = w.main
+    if knobs.get('line_mean'):
+        enable_line_preemption(w)
     target = ('127.0.0.1', main._osc_interface.port) if loopback \
         else ('127.0.0.1', 57110)
     it = rprog.Interp(prog, main, 'rt', kernel=k, net=w.net, target=target)
@@ -47,6 +64,20 @@ def run_rt(prog, knobs, tape, emit, loopback=False, seed=7):
 
     k.on_finish = lambda oc: emit(finalize(oc))
     it.start_root()
+    # the main thread reads the time while the clocks run the program
+    import sc3.base.clock as sclk
+    for op in driver or []:
+        if op[0] == 'at':
+            now_e = (k.epoch + k.now) - main._init_time
+            k.sleep(max(0.0, op[1] - now_e))
+        elif op[0] == 'read':
+            if op[1] == 'sys':
+                sclk.SystemClock.seconds
+            else:
+                c = it.clocks.get(op[1])
+                if c is not None:
+                    c.beats
+            k.probes['main-thread-time-read'] += 1
     k.wait_idle(k.now + 3600.0)
     return finalize('ok')
 
